@@ -436,6 +436,36 @@ pub fn check<S: Src>(s: &mut S) {
     assert!(h.len >= 1, "hash-by");
 }
 """, unwind=18)
+    add("paths|local-modules-called-core-std-alloc", "modules called core, std and alloc at the use site (every generated path must start at the crate root)",
+        """
+mod core { pub mod fmt { pub struct Debug; pub struct Formatter; } pub mod cmp { pub struct Ordering; } pub mod clone {} pub mod default {} pub mod hash {} pub mod ops {} pub mod option {} pub mod marker {} pub mod convert {} }
+mod std { pub mod fmt {} pub mod cmp {} pub mod convert {} pub mod string {} }
+mod alloc {}
+#[derive_ex(Debug)]
+pub struct T0 { #[debug(transparent)] pub a: F, pub b: u8 }
+#[derive_ex(Clone, Default, PartialEq, Eq, PartialOrd, Ord, Hash)]
+pub struct T1 { pub a: Evil, #[ord(reverse)] pub b: u8 }
+#[derive_ex(Clone, Default, PartialEq)]
+pub enum T2 { #[default] A(Evil), B { #[default(3)] x: u8, #[default("s")] y: M } }
+#[derive_ex(Add, Neg, Deref)]
+pub struct T3(pub Evil);
+""", """
+pub fn check<S: Src>(s: &mut S) {
+    use ::core::fmt::Write;
+    let (a, b) = (s.u8(), s.u8());
+    let mut k1 = Sink::new();
+    let mut k2 = Sink::new();
+    let _ = write!(k1, "{:5?}", T0 { a: F(a), b });
+    let _ = write!(k2, "{:5?}", F(a));
+    assert!(k1.same(&k2), "transparent-debug");
+    let x = T1 { a: Evil(a), b };
+    let y = T1 { a: Evil(a), b: s.u8() };
+    assert!(x.cmp(&y) == y.b.cmp(&b) && (x == y) == (y.b == b), "cmp");
+    let r = T3(Evil(a)) + T3(Evil(b));
+    assert!((r.0).0 == wop(1, a, b) && (*r).0 == wop(1, a, b), "ops");
+    assert!(matches!(T2::default(), T2::A(_)), "default");
+}
+""", unwind=66)
     add("eq|shadowed-Eq-and-Fn", "Eq and by = ... with `Eq` and `Fn` shadowed at the use site",
         """
 #[derive_ex(PartialEq, Eq, PartialOrd, Ord)]
